@@ -37,7 +37,9 @@ EXTENDS VerifIO, SequencesExt
 CONSTANTS K1,      \* max length of the string argument of one-string functions
           K2,      \* max length of both arguments of two-string functions
           K3,      \* max length of the 2nd/3rd argument of three-string functions (1st: K1)
-          Wide     \* 0 quick / 1 thorough: wider integer and date domains
+          Wide,    \* 0 quick / 1 thorough: wider integer and date domains
+          Part     \* "all", or one of "a" "b" "c" "d": the slice of the family this TLC process enumerates
+                   \* (the driver runs the slices as concurrent TLC processes)
 
 \* ---- values -----------------------------------------------------------------
 V(t, n, i, s) == [t |-> t, n |-> n, i |-> i, s |-> s]
@@ -260,6 +262,7 @@ DV == {D(x) : x \in DatesRaw} \cup {N("date")}
 AddAmounts == {I(x) : x \in (IF Wide = 1 THEN {-25, -13, -12, -1, 0, 1, 2, 11, 12, 13, 48} ELSE {-13, -1, 0, 1, 12})} \cup {N("int")}
 
 \* ---- cases ------------------------------------------------------------------------------
+On(p) == Part = "all" \/ Part = p
 C(f, tmpl, args, exp, pin) == [f |-> f, tmpl |-> tmpl, args |-> args, exp |-> exp, pin |-> IF pin THEN 1 ELSE 0]
 AnyN(args) == \E k \in DOMAIN args : IsN(args[k])
 
@@ -267,7 +270,7 @@ AnyN(args) == \E k \in DOMAIN args : IsN(args[k])
 Str1(f, tmpl, R(_)) == {C(f, tmpl, <<a>>, IF IsN(a) THEN N("str") ELSE S(R(a.s)), TRUE) : a \in SV(K1)}
 Str1Int(f, tmpl, R(_)) == {C(f, tmpl, <<a>>, IF IsN(a) THEN N("int") ELSE I(R(a.s)), TRUE) : a \in SV(K1)}
 LenS(s) == Len(s)
-CasesStr1 ==
+CasesStr1 == IF ~On("d") THEN {} ELSE
     Str1Int("LENGTH", "LENGTH($1)", LenS) \cup Str1Int("CHAR_LENGTH", "CHAR_LENGTH($1)", LenS)
     \cup Str1("UPPER", "UPPER($1)", UpperS) \cup Str1("LOWER", "LOWER($1)", LowerS)
     \cup Str1("TRIM", "TRIM($1)", TrimS) \cup Str1("LTRIM", "LTRIM($1)", LTrimS) \cup Str1("RTRIM", "RTRIM($1)", RTrimS)
@@ -282,20 +285,20 @@ CasesStr1 ==
              a \in {I(97), I(66), I(32), I(233), I(8364), N("int")}}
 
 \* string + integers
-CasesStrInt ==
+CasesStrInt == IF ~On("a") THEN {} ELSE
     UNION {{C("SUBSTRING", t, <<a, st>>, IF AnyN(<<a, st>>) THEN N("str") ELSE S(SubstrFrom(a.s, st.i)),
                 AnyN(<<a, st>>) \/ SubstrPinned(a.s, st.i)) : a \in SV(K1), st \in Starts}
              : t \in SubTmpl2}
     \cup UNION {{C("SUBSTRING", t, <<a, st, ln>>,
                    IF AnyN(<<a, st, ln>>) THEN N("str") ELSE S(SubstrFor(a.s, st.i, ln.i)),
-                   AnyN(<<a, st, ln>>) \/ (SubstrPinned(a.s, st.i) /\ ln.i >= 0)) : a \in SV(K1), st \in Starts, ln \in Lens}
+                   AnyN(<<a, st, ln>>) \/ (SubstrPinned(a.s, st.i) /\ ln.i >= 0)) : a \in SV(IF Wide = 1 THEN K1 ELSE 2), st \in Starts, ln \in Lens}
              : t \in SubTmpl3}
     \* the alternative spellings on a smaller string domain (quick)
     \cup UNION {{C("SUBSTRING", t, <<a, st>>, IF AnyN(<<a, st>>) THEN N("str") ELSE S(SubstrFrom(a.s, st.i)),
                 AnyN(<<a, st>>) \/ SubstrPinned(a.s, st.i)) : a \in SV(2), st \in Starts} : t \in SubAlt2}
     \cup UNION {{C("SUBSTRING", t, <<a, st, ln>>,
                    IF AnyN(<<a, st, ln>>) THEN N("str") ELSE S(SubstrFor(a.s, st.i, ln.i)),
-                   AnyN(<<a, st, ln>>) \/ (SubstrPinned(a.s, st.i) /\ ln.i >= 0)) : a \in SV(2), st \in Starts, ln \in Lens} : t \in SubAlt3}
+                   AnyN(<<a, st, ln>>) \/ (SubstrPinned(a.s, st.i) /\ ln.i >= 0)) : a \in SV(IF Wide = 1 THEN 2 ELSE 1), st \in Starts, ln \in Lens} : t \in SubAlt3}
     \cup {C("LEFT", "LEFT($1, $2)", <<a, k>>, IF AnyN(<<a, k>>) THEN N("str") ELSE S(SubSeq(a.s, 1, Min2(k.i, Len(a.s)))), TRUE)
              : a \in SV(K1), k \in Sizes}
     \cup {C("RIGHT", "RIGHT($1, $2)", <<a, k>>,
@@ -312,7 +315,8 @@ CasesStrInt ==
     \cup {C("SPLIT_PART", "SPLIT_PART($1, $2, $3)", <<a, d, k>>,
              IF AnyN(<<a, d, k>>) THEN N("str")
              ELSE (LET parts == SplitS(a.s, d.s) IN IF k.i > Len(parts) THEN N("str") ELSE S(parts[k.i])), TRUE)
-             : a \in SV(K1), d \in NES(K3) \cup {N("str")}, k \in {I(x) : x \in 1..4} \cup {N("int")}}
+             : a \in SV(IF Wide = 1 THEN K1 ELSE 2) \cup {S(<<97, 32, 97>>), S(<<233, 66, 233>>), S(<<32, 32, 32>>)},
+               d \in NES(K3) \cup {N("str")}, k \in {I(x) : x \in 1..4} \cup {N("int")}}
 
 \* two / three strings
 Str2(f, tmpl, R(_, _), rt) == {C(f, tmpl, <<a, b>>, IF AnyN(<<a, b>>) THEN N(rt) ELSE R(a.s, b.s), TRUE) : a \in SV(K2), b \in SV(K2)}
@@ -322,7 +326,7 @@ PosInR(a, b) == I(PosS(b, a))
 StartsR(a, b) == Bool(IsPrefixS(b, a))
 EndsR(a, b) == Bool(IsSuffixS(b, a))
 LevR(a, b) == I(Lev(a, b))
-CasesStr2 ==
+CasesStr2 == IF ~On("b") THEN {} ELSE
     Str2("CONCAT", "CONCAT($1, $2)", ConcatR, "str") \cup Str2("CONCAT", "$1 || $2", ConcatR, "str")
     \cup Str2("STRPOS", "STRPOS($1, $2)", PosR, "int") \cup Str2("POSITION", "POSITION($1 IN $2)", PosInR, "int")
     \cup Str2("STARTS_WITH", "STARTS_WITH($1, $2)", StartsR, "bool") \cup Str2("ENDS_WITH", "ENDS_WITH($1, $2)", EndsR, "bool")
@@ -338,9 +342,10 @@ CasesStr2 ==
              IF IsN(sep) THEN N("str")
              ELSE S(JoinS(LET nn == SelectSeq(<<a, b>>, LAMBDA x : ~IsN(x)) IN [k \in DOMAIN nn |-> nn[k].s], sep.s)), TRUE)
              : sep \in SV(K3), a \in SV(K3), b \in SV(K3)}
-CasesStr3 ==
+CasesStr3 == IF ~On("c") THEN {} ELSE
     {C("REPLACE", "REPLACE($1, $2, $3)", <<a, b, c>>,
-        IF AnyN(<<a, b, c>>) THEN N("str") ELSE S(ReplaceS(a.s, b.s, c.s)), TRUE) : a \in SV(K1), b \in SV(K3), c \in SV(K3)}
+        IF AnyN(<<a, b, c>>) THEN N("str") ELSE S(ReplaceS(a.s, b.s, c.s)), TRUE)
+        : a \in SV(IF Wide = 1 THEN K1 ELSE 2) \cup {S(<<97, 66, 97>>), S(<<233, 233, 233>>), S(<<97, 97, 97>>)}, b \in SV(K3), c \in SV(K3)}
     \cup {C("TRANSLATE", "TRANSLATE($1, $2, $3)", <<a, b, c>>,
         IF AnyN(<<a, b, c>>) THEN N("str") ELSE S(TranslateS(a.s, b.s, c.s)), TRUE) : a \in SV(IF Wide = 1 THEN K1 ELSE 2), b \in SV(2), c \in SV(K3)}
 
@@ -348,7 +353,7 @@ CasesStr3 ==
 \* integer math (order-only tokens where the definition needs nothing but order / sign)
 IntMax(a, b) == IF a >= b THEN a ELSE b
 IntMin(a, b) == IF a <= b THEN a ELSE b
-CasesNum ==
+CasesNum == IF ~On("d") THEN {} ELSE
     {C("ABS", "ABS($1)", <<a>>, IF IsN(a) THEN N("int") ELSE I(Abs(a.i)), TRUE) : a \in IVB \ {I(TMIN)}}
     \cup {C("SIGN", "SIGN($1)", <<a>>, IF IsN(a) THEN N("int") ELSE I(Sgn(a.i)), TRUE) : a \in IVB}
     \cup {C("MOD", "MOD($1, $2)", <<a, b>>, IF AnyN(<<a, b>>) THEN N("int") ELSE I(TruncMod(a.i, b.i)), TRUE)
@@ -381,7 +386,7 @@ IfR(c, a, b) == IF c.n = 0 /\ c.i = 1 THEN a ELSE b
 CondPairs == {<<I(1), I(2), "int">>, <<S(<<97>>), S(<<66, 233>>), "str">>, <<S(<<>>), S(<<32>>), "str">>,
               <<D(Days(2020, 2, 29)), D(Days(1969, 12, 31)), "date">>, <<H(3), H(-1), "dbl">>, <<I(T3), I(TMIN), "int">>}
 WithNulls(p) == {<<x, y>> : x \in {p[1], p[2], N(p[3])}, y \in {p[1], p[2], N(p[3])}}
-CasesCond ==
+CasesCond == IF ~On("d") THEN {} ELSE
     UNION {{C("COALESCE", "COALESCE($1, $2)", <<q[1], q[2]>>, IF IsN(q[1]) THEN q[2] ELSE q[1], TRUE) : q \in WithNulls(p)} : p \in CondPairs}
     \cup UNION {{C("COALESCE", "COALESCE($1, $2, $3)", <<q[1], q[2], r>>,
                     IF ~IsN(q[1]) THEN q[1] ELSE IF ~IsN(q[2]) THEN q[2] ELSE r, TRUE) : q \in WithNulls(p), r \in {p[1], N(p[3])}} : p \in CondPairs}
@@ -402,7 +407,7 @@ CasesCond ==
 BitInts == IF Wide = 1 THEN {-128, -8, -7, -2, -1, 0, 1, 2, 3, 5, 6, 7, 9, 127} ELSE {-8, -7, -1, 0, 1, 2, 5, 6, 7, 9}
 BIV == {I(x) : x \in BitInts} \cup {N("int")}
 BitFn(f, op) == {C(f, f \o "($1, $2)", <<a, b>>, IF AnyN(<<a, b>>) THEN N("int") ELSE I(Bit8(op, a.i, b.i)), TRUE) : a \in BIV, b \in BIV}
-CasesBit ==
+CasesBit == IF ~On("d") THEN {} ELSE
     BitFn("BITWISE_AND", 1) \cup BitFn("BITWISE_OR", 2) \cup BitFn("BITWISE_XOR", 3)
     \cup {C("BITWISE_NOT", "BITWISE_NOT($1)", <<a>>, IF IsN(a) THEN N("int") ELSE I(-a.i - 1), TRUE) : a \in BIV}
     \cup {C("BITWISE_NOT", "BITWISE_NOT($1)", <<I(a)>>, I(TokNot(a)), TRUE) : a \in {x \in Toks : TokNotDefined(x)}}
@@ -425,7 +430,7 @@ CasesBit ==
 \* calendar
 Date1(f, tmpl, R(_)) == {C(f, tmpl, <<a>>, IF IsN(a) THEN N("int") ELSE I(R(a.i)), TRUE) : a \in DV}
 Units == {"day", "week", "month", "quarter", "year"}
-CasesDate ==
+CasesDate == IF ~On("d") THEN {} ELSE
     Date1("YEAR", "YEAR($1)", YearOf) \cup Date1("MONTH", "MONTH($1)", MonthOf) \cup Date1("DAY", "DAY($1)", DayOf)
     \cup Date1("QUARTER", "QUARTER($1)", QuarterOf)
     \cup Date1("DAY_OF_WEEK", "DAY_OF_WEEK($1)", DowIso) \cup Date1("DAY_OF_WEEK", "DOW($1)", DowIso)
@@ -511,11 +516,11 @@ NullRule == {
   <<"JSON_ARRAY_CONTAINS", "JSON_ARRAY_CONTAINS($1, 1)", "str">>, <<"JSON_ARRAY_CONTAINS", "JSON_ARRAY_CONTAINS('[1,2]', $1)", "int">>,
   <<"IS_JSON_SCALAR", "IS_JSON_SCALAR($1)", "str">>, <<"JSON_FORMAT", "JSON_FORMAT($1)", "str">>, <<"JSON_PARSE", "JSON_PARSE($1)", "str">>
 }
-CasesNull == {C(r[1], r[2], <<N(r[3])>>, N("any"), TRUE) : r \in NullRule}
+CasesNull == IF ~On("d") THEN {} ELSE {C(r[1], r[2], <<N(r[3])>>, N("any"), TRUE) : r \in NullRule}
 
 \* ---- model: the case family is a constant; TLC's workers emit it chunk by chunk --------------
-AllCases == SetToSeq(CasesStr1 \cup CasesStrInt \cup CasesStr2 \cup CasesStr3 \cup CasesNum \cup CasesCond
-                     \cup CasesBit \cup CasesDate \cup CasesNull)
+AllCases == SetToSeq(CasesStr1) \o SetToSeq(CasesStrInt) \o SetToSeq(CasesStr2) \o SetToSeq(CasesStr3) \o SetToSeq(CasesNum)
+            \o SetToSeq(CasesCond) \o SetToSeq(CasesBit) \o SetToSeq(CasesDate) \o SetToSeq(CasesNull)
 NCases == Len(AllCases)
 Chunk == 400
 NChunks == (NCases + Chunk - 1) \div Chunk
@@ -551,4 +556,5 @@ Lemmas == idx = 0 => (DateLemmas /\ StringLemmas /\ NumLemmas)
 
 Emit == idx > 0 => \A k \in ((idx - 1) * Chunk + 1)..Min2(idx * Chunk, NCases) : EmitCase(AllCases[k])
 Count == idx = 0 => EmitTag("COUNT", [n |-> NCases])
+Inv == Lemmas /\ Count /\ Emit
 ====
